@@ -72,10 +72,22 @@ def _pong_responder(answer_upto, latency):
     return hook
 
 
-def t_silent(I, T, answered, ndata):
+def _settings(I, T, ratio):
+    """(interval, timeout): concrete grid values, or — I == T == 'sym' — two solver reals with 0 < T <= 10 and T < I <= ratio*T,
+    i.e. EVERY accepted pair of settings up to that ratio"""
+    if I == "sym":
+        Tv = sx.sym_real("T")
+        sx.assume(sx.And(Tv > 0, Tv <= 10))
+        Iv = sx.sym_real("I")
+        sx.assume(sx.And(Iv > Tv, Iv <= ratio * Tv))
+        return Iv, Tv
+    return Fraction(I), Fraction(T)
+
+
+def t_silent(I, T, answered, ndata, ratio=4):
     """peer answers the first `answered` pings at once, then never; `ndata` unrelated data frames arrive at symbolic times.
     The ping/pong timeout must be reported no later than (first unanswered ping) + 2T."""
-    I, T = Fraction(I), Fraction(T)
+    I, T = _settings(I, T, ratio)
     horizon = (answered + 6) * I
     script, t = [], 0
     for j in range(ndata):
@@ -108,9 +120,9 @@ def t_silent(I, T, answered, ndata):
     cover("silent")
 
 
-def t_live(I, T, ndata, payload="hb", yield_on_send=False):
+def t_live(I, T, ndata, payload="hb", yield_on_send=False, ratio=4):
     """peer answers every ping after a symbolic latency in [0, T); data frames at symbolic times: never a timeout"""
-    I, T = Fraction(I), Fraction(T)
+    I, T = _settings(I, T, ratio)
     lat = sx.sym_real("lat")
     sx.assume(sx.And(lat >= 0, lat < T))
     npings = 3
@@ -137,7 +149,7 @@ def t_live(I, T, ndata, payload="hb", yield_on_send=False):
     pings = run.net.ping_times
     sx.require(len(pings) == npings, "pings are sent periodically while the connection is up", got=len(pings), exp=npings, I=str(I), T=str(T))
     for a, b in zip(pings, pings[1:]):
-        sx.require(b - a == I, "consecutive pings are one interval apart", I=str(I))
+        sx.require(b - a == I, "consecutive pings are one interval apart")
     wire = b""
     for (_, _, d) in run.net.client_frames:
         wire = wire + d
@@ -158,7 +170,17 @@ def obligations(tier):
     live = [dict(I=i, T=t, ndata=n) for (i, t) in pairs for n in ((0, 1, 2) if thorough else (0, 1))]
     # the same with every transport write a preemption point (the reader may handle an immediate pong before the ping thread continues)
     live += [dict(I=i, T=t, ndata=n, yield_on_send=True) for (i, t) in pairs for n in ((0, 1) if thorough else (0,))]
+    R = 6 if thorough else 4
+    silent_sym = [dict(I="sym", T="sym", answered=a, ndata=n, ratio=R) for a in (0, 1) for n in (0, 1)]
+    live_sym = [dict(I="sym", T="sym", ndata=n, ratio=R) for n in ((0, 1) if thorough else (0,))] + [dict(I="sym", T="sym", ndata=0, ratio=R, yield_on_send=True)]
     return [
+        Obligation("T-silent-sym", t_silent, silent_sym,
+                   bounds="EVERY accepted pair of settings with 0 < timeout <= 10 and timeout < interval <= %d*timeout (both solver reals); peer answers the "
+                          "first 0..1 pings then never; 0..1 data frames at symbolic times" % R, must_cover=["silent"], budget_s=2400, step_budget=400000,
+                   kernel=["WebSocketApp._send_ping", "check", "Dispatcher.read"]),
+        Obligation("T-live-sym", t_live, live_sym,
+                   bounds="EVERY accepted pair as in T-silent-sym; every ping answered after a latency that is a solver real in [0, timeout); with and without "
+                          "write preemption", must_cover=["live"], budget_s=2400, step_budget=400000, kernel=["WebSocketApp._send_ping", "check", "read (pong branch)"]),
         Obligation("T-args", t_args, [dict(t_none=tn, i_kind=ik) for tn in (False, True) for ik in ("sym", "none", "zero")],
                    bounds="ping_interval and ping_timeout arbitrary reals in [-5, 50] (also None / 0): unbounded density, one query per branch",
                    must_cover=["refused", "accepted"], kernel=["WebSocketApp.run_forever (argument validation)"]),
